@@ -134,8 +134,8 @@ def faults(doc, rng=None):
                     break
     # a duplicated value of the unique constraint UI: the n of an item / entry copied from a preceding one of the same section
     for a, n in nodes(doc):
-        if n['tag'] == 'section' and not any(k['tag'] in ('section', 'wrap') for k in n['kids']):
-            # (a nested section re-uses the identity counter of the enclosing one: F-C08b, outside this property)
+        if n['tag'] == 'section':
+            # (sections nest: every instance is a scope of its own - repo fix 8cf8a00, formerly finding F-C08b)
             keyed = [i for i, k in enumerate(n['kids']) if k['tag'] in ('item', 'entry')]
             for j in range(1, len(keyed)):
                 def dup(x, j=j, keyed=keyed):
